@@ -1460,7 +1460,14 @@ def table_ties(ctx, R, entries):
             ctx.violation("table:selector-bound-to-wrong-signature",
                           f"assert_cheatcode_handler[{e['sel']:#010x}] is bound to {e['sig']} but the selector is that of {truth.get(e['sel'])}",
                           {"level": "table", "selector": hex(e["sel"]), "bound": e["sig"], "keccak_says": truth.get(e["sel"])})
-    replies = ctx.lean("Assertions").ask([f"D {e['sig']}" for e in entries])
+    # one driver run for both the derivation requests and the UTF-8 samples
+    rng = ctx.rng
+    samples = [b"", b"AB", "€".encode(), b"\xff\xfe", b"\xc0\x80", b"\xed\xa0\x80", b"\xf4\x90\x80\x80", b"\xe0\x9f\xbf", b"\xf0\x8f\xbf\xbf", b"\xc2"]
+    for _ in range(ctx.scale(60, 400)):
+        n = rng.randrange(1, 5)
+        samples.append(bytes(rng.choice([rng.randrange(256), rng.randrange(0x80, 0xC0), rng.choice([0xC2, 0xE0, 0xED, 0xF0, 0xF4, 0xEF])]) for _ in range(n)))
+    both = ctx.lean("Assertions").ask([f"D {e['sig']}" for e in entries] + [f"U {x.hex() or '-'}" for x in samples])
+    replies, rs = both[: len(entries)], both[len(entries):]
     for e, r in zip(entries, replies):
         want = f"op={e['op']} operands={e['operands']} ty={e['ty']} array={int(e['is_array'])} msg={int(e['has_msg'])} bop={e['bop']}"
         if r != want:
@@ -1468,12 +1475,6 @@ def table_ties(ctx, R, entries):
         ctx.case(("derive", e["sig"]))
     ctx.count("table-entries", len(entries))
     # CPython's UTF-8 decoder vs the model's validUtf8
-    rng = ctx.rng
-    samples = [b"", b"AB", "€".encode(), b"\xff\xfe", b"\xc0\x80", b"\xed\xa0\x80", b"\xf4\x90\x80\x80", b"\xe0\x9f\xbf", b"\xf0\x8f\xbf\xbf", b"\xc2"]
-    for _ in range(ctx.scale(60, 400)):
-        n = rng.randrange(1, 5)
-        samples.append(bytes(rng.choice([rng.randrange(256), rng.randrange(0x80, 0xC0), rng.choice([0xC2, 0xE0, 0xED, 0xF0, 0xF4, 0xEF])]) for _ in range(n)))
-    rs = ctx.lean("Assertions").ask([f"U {s.hex() or '-'}" for s in samples])
     for s, r in zip(samples, rs):
         try:
             s.decode("utf-8")
